@@ -3,7 +3,8 @@ from __future__ import annotations
 
 from ..env import Env, compile_fn
 from ..kernel import shard_map
-from ..progs import all_target_programs, boolchain_programs, chain_sources, expr_programs, skeleton_sources, source_shapes
+from ..progs import (all_target_programs, arg_calls, arg_programs, boolchain_programs, chain_sources, expr_programs,
+                     skeleton_sources, source_shapes)
 from ..runner import Acc
 from ..srcpipe import compare_functions, roundtrip
 from ..sweep import rotate
@@ -27,6 +28,7 @@ def programs(tier: str):
         out += list(skeleton_sources(3, "bare", loop_else_upto=2))
         out += list(expr_programs(2, 4))
     out += list(all_target_programs())
+    out += list(arg_programs(2))
     return out
 
 
@@ -87,10 +89,56 @@ def check_program(label: str, src: str, acc: Acc, horizon: int, raising: bool = 
         acc.samples.append({"label": label, "source": src, "regenerated": p.text, "answer_sequences": st.runs})
 
 
+def check_arg_program(label: str, src: str, params, form: int, acc: Acc):
+    """Programs whose control flow is driven by their PARAMETERS: the round trip must keep the signature (positional-only,
+    defaults, keyword-only, *rest, **kw) and behave the same for every argument tuple over {0,1,2} in every calling
+    convention, including ill-formed calls (same TypeError)."""
+    from ..env import execute
+    from ..kernel import Chooser
+    p = roundtrip(src)
+    acc.counters[f"pipeline[{p.status}]"] += 1
+    acc.counters[f"programs[{label.split('/')[0]}/args]"] += 1
+    case = {"kind": "args", "label": label, "source": src, "params": list(params), "form": form}
+    if p.status == "refused":
+        acc.counters[f"refused_at[{p.stage}]"] += 1
+        return
+    if p.status == "error":
+        acc.viol(PROP, f"{PROP}/internal-error/{p.exc_type}", f"{label}: pipeline stage {p.stage} died with {p.exc_type}: {p.msg} at {p.site}",
+                 (src,), site=p.site, case=case)
+        return
+    env1, env2 = Env(False), Env(False)
+    try:
+        f1 = compile_fn(src, "f", env1)
+        f2 = compile_fn(p.text, "transformed_f", env2)
+    except Exception as e:  # noqa: BLE001
+        acc.viol(PROP, f"{PROP}/does-not-compile", f"{label}: regenerated source does not define transformed_f: {type(e).__name__}: {e}",
+                 (src,), case=dict(case, regenerated=p.text))
+        return
+    for args, kw in arg_calls(params, form):
+        o1 = execute(lambda: f1(*args, **kw), env1, Chooser())
+        o2 = execute(lambda: f2(*args, **kw), env2, Chooser())
+        acc.states += 1
+        acc.transitions += len(o1[0]) + 1
+        acc.traces += 1
+        acc.counters["argument_tuples"] += 1
+        acc.outcomes.add(("args", o1[1][0]))
+        if o1 != o2:
+            kind = diff_signature(o1, o2)
+            acc.viol(PROP, f"{PROP}/behaviour-differs/{kind}",
+                     f"{label}: call f(*{args!r}, **{kw!r}): original -> {o1[1]!r} after {len(o1[0])} calls; regenerated -> {o2[1]!r} after {len(o2[0])} calls",
+                     (src,), shape="args," + source_shapes(src) if source_shapes(src) else "args",
+                     case=dict(case, regenerated=p.text, args=list(args), kwargs=kw))
+            break
+
+
 def _work(args):
     chunk, horizon = args
     acc = Acc()
-    for label, src in chunk:
+    for item in chunk:
+        if len(item) == 4:
+            check_arg_program(item[0], item[1], item[2], item[3], acc)
+            continue
+        label, src = item
         check_program(label, src, acc, horizon, raising=label.startswith("T/") or (label.startswith("X") and not label.startswith("XC")))
     return acc
 
@@ -106,7 +154,10 @@ def run(tier: str, seed: int):
     cov = {"rule": "every program of S(c) in marked and bare mode, X(d) in every carrier and the targeted shapes goes through "
                    "AST2SCFG -> restructure -> SCFG2AST -> unparse -> compile; accepted programs are executed under a stateless explorer "
                    "over ALL oracle answer sequences (tests true/false[/raise], iterables of length 0-2) up to the horizon; a state is one "
-                   "complete execution, a transition one oracle answer; traces = executions of the regenerated code compared with the original",
+                   "complete execution, a transition one oracle answer; traces = executions of the regenerated code compared with the original; "
+                   "plus the A(c) family: the same skeletons with control flow driven by the function's parameters, four signature forms "
+                   "(positional, default, keyword-only, positional-only + *rest + **kw), called with EVERY argument tuple over {0,1,2} in "
+                   "every calling convention and with ill-formed calls",
            "bounds": {"horizon_answers": horizon, "programs": len(progs)},
            "programs": len(progs)}
     return {"acc": acc, "coverage": cov, "assumptions": [
@@ -116,5 +167,8 @@ def run(tier: str, seed: int):
 
 def replay(case) -> Acc:
     acc = Acc()
+    if case.get("kind") == "args":
+        check_arg_program(case.get("label", "replay"), case["source"], case["params"], case["form"], acc)
+        return acc
     check_program(case.get("label", "replay"), case["source"], acc, case.get("horizon", 6), case.get("raising", False))
     return acc
